@@ -9,6 +9,7 @@
   correspondence of checks/c11.py (all sentences up to N tokens and their single-token edits).
 -/
 import Cpf.Lemmas.Recog
+import Cpf.Lemmas.Dedup
 import Cpf.Lemmas.Fuel
 import Cpf.Query.Listener
 import Cpf.Generated.Grammar
@@ -21,7 +22,7 @@ theorem C11_accept_sound (g : Grammar) (f : Nat) (s : String) (ts : List Token)
     (h : accepts g f s ts = true) : Derives g (.nt s) ts := by
   simp only [accepts, List.any_eq_true] at h
   obtain ⟨p, hp, he⟩ := h
-  obtain ⟨h1, h2⟩ := parse_sound g f (.nt s) ts p hp
+  obtain ⟨h1, h2⟩ := parse_sound g f (.nt s) ts p (parseD_sub g f (.nt s) ts p hp)
   have : p.2 = [] := by simpa using he
   rw [this, List.append_nil] at h1
   rw [h1]; exact h2
@@ -32,8 +33,9 @@ theorem C11_accept_complete (g : Grammar) (s : String) (ts : List Token) (h : De
   obtain ⟨f0, hf⟩ := parse_complete g h
   refine ⟨f0, fun f hle => ?_⟩
   obtain ⟨forest, hm, _⟩ := hf f hle []
+  obtain ⟨q, hq, he⟩ := parseD_complete g f (.nt s) ts (forest, []) (by simpa using hm)
   simp only [accepts, List.any_eq_true]
-  exact ⟨(forest, []), by simpa using hm, by simp⟩
+  exact ⟨q, hq, by simp at he; simp [he]⟩
 
 /-- Accepted (with some fuel) iff grammatical. -/
 theorem C11_accept_iff (g : Grammar) (s : String) (ts : List Token) :
@@ -61,8 +63,9 @@ theorem C11_full_proved : C11_full := by
   have hw := wf_of_wfB C11_fuel_tables_wf
   have hr : tabGet Generated.rankTable Generated.startRule ≤ 48 := by decide
   obtain ⟨forest, hm, _⟩ := parse_complete_bounded hw h rfl (fuelFor ts) (by simp only [rank, fuelFor]; omega) []
+  obtain ⟨q, hq, he⟩ := parseD_complete _ _ _ _ (forest, []) (by simpa using hm)
   simp only [accepts, List.any_eq_true]
-  exact ⟨(forest, []), by simpa using hm, by simp⟩
+  exact ⟨q, hq, by simp at he; simp [he]⟩
 
 /-- accepted by the driver's model ⇔ grammatical -/
 theorem C11_accept_iff_fixed_fuel (ts : List Token) :
@@ -76,24 +79,24 @@ theorem C11_sentence_has_tree (ts : List Token) (h : Derives Generated.grammar (
   have hr : tabGet Generated.rankTable Generated.startRule ≤ 48 := by decide
   obtain ⟨forest, hm, _⟩ := parse_complete_bounded hw h rfl (fuelFor ts) (by simp only [rank, fuelFor]; omega) []
   have hm' : (forest, []) ∈ parse Generated.grammar (fuelFor ts) (.nt Generated.startRule) ts := by simpa using hm
+  obtain ⟨q, hq, he⟩ := parseD_complete _ _ _ _ (forest, []) hm'
+  have hq' := parseD_sub _ _ _ _ q hq
   obtain ⟨f', hf⟩ : ∃ f', fuelFor ts = f' + 1 := ⟨fuelFor ts - 1, by simp only [fuelFor]; omega⟩
   have hmem : ∃ t, t ∈ parsesOf Generated.grammar (fuelFor ts) Generated.startRule ts := by
-    rw [hf] at hm'
-    simp only [parse] at hm'
+    rw [hf] at hq'
+    simp only [parse] at hq'
     cases hl : lookup Generated.grammar Generated.startRule with
-    | none => simp [hl] at hm'
+    | none => simp [hl] at hq'
     | some rhs =>
-        simp only [hl, List.mem_map] at hm'
-        obtain ⟨p, hp, hpe⟩ := hm'
+        simp only [hl, List.mem_map] at hq'
+        obtain ⟨p, _, hpe⟩ := hq'
         refine ⟨PT.node Generated.startRule p.1, ?_⟩
         simp only [parsesOf, List.mem_filterMap]
-        refine ⟨([PT.node Generated.startRule p.1], []), ?_, rfl⟩
-        rw [hf]
-        simp only [parse, hl, List.mem_map]
-        refine ⟨p, hp, ?_⟩
-        have := congrArg Prod.snd hpe
-        simp at this
-        simp [this]
+        refine ⟨q, hq, ?_⟩
+        have h2 : q.2 = [] := by simpa using he
+        rw [← hpe] at h2 ⊢
+        simp only at h2
+        simp [h2]
   obtain ⟨t, ht⟩ := hmem
   cases hh : (parsesOf Generated.grammar (fuelFor ts) Generated.startRule ts).head? with
   | some tree => exact ⟨tree, rfl⟩
@@ -115,7 +118,7 @@ theorem C11_reject_partial (ts : List Token)
       have hmem : tree ∈ parsesOf Generated.grammar (fuelFor ts) Generated.startRule ts := List.mem_of_head? hh
       simp only [parsesOf, List.mem_filterMap] at hmem
       obtain ⟨p, hp, hsome⟩ := hmem
-      obtain ⟨h1, h2⟩ := parse_sound _ _ _ _ p hp
+      obtain ⟨h1, h2⟩ := parse_sound _ _ _ _ p (parseD_sub _ _ _ _ p hp)
       obtain ⟨forest, rest⟩ := p
       cases forest with
       | nil => simp at hsome
@@ -147,7 +150,13 @@ example : Derives g0 (.nt "s") [tA, tB, tB] :=
 example : ¬ Derives g0 (.nt "s") [tB] := by
   intro h
   have ⟨f0, hf⟩ := C11_accept_complete g0 "s" [tB] h
-  have := hf (f0 + 3) (by omega)
-  simp [accepts, parse, lookup, g0, tB] at this
+  have := C11_accept_sound g0 (f0 + 3) "s" [tB] (hf (f0 + 3) (by omega))
+  have hs := C11_accept_complete g0 "s" [tB] this
+  obtain ⟨f1, hf1⟩ := hs
+  have h3 := hf1 (f1 + 3) (by omega)
+  simp only [accepts, List.any_eq_true] at h3
+  obtain ⟨p, hp, _⟩ := h3
+  have hp' := parseD_sub _ _ _ _ p hp
+  simp [parse, lookup, g0, tB] at hp'
 
 end Cpf.Props.C11
